@@ -7321,13 +7321,27 @@ fn eval_block(env: &mut Env, expr_value_is_used: bool, block: &Block) {
 /// (`expr_state`, `expr`), does that step own a bindings block that
 /// it would have popped?
 ///
-/// `if`, `match` and `try` pop their branch block in the
+/// `if`, `match`, `try` and `for` pop a block in the
 /// `EvaluatedSubexpressions` step.
 fn discarded_step_owns_block(expr_state: ExpressionState, expr: &Expression) -> bool {
     matches!(expr_state, ExpressionState::EvaluatedSubexpressions)
         && matches!(
             expr.expr_,
-            Expression_::If(_, _, _) | Expression_::Match(_, _) | Expression_::Try(_, _, _)
+            Expression_::If(_, _, _)
+                | Expression_::Match(_, _)
+                | Expression_::Try(_, _, _)
+                | Expression_::ForIn(_, _, _)
+        )
+}
+
+/// Is this pending step a loop that has started running? A loop
+/// that is still `NotEvaluated` is a later statement in the block
+/// we're leaving, not a loop that encloses the `break` or `continue`.
+fn is_running_loop(expr_state: ExpressionState, expr: &Expression) -> bool {
+    matches!(expr_state, ExpressionState::PartiallyEvaluated(_))
+        && matches!(
+            expr.expr_,
+            Expression_::While(_, _) | Expression_::ForIn(_, _, _)
         )
 }
 
@@ -7336,7 +7350,7 @@ fn eval_break(env: &mut Env, expr_value_is_used: bool) {
     // longer inside the innermost loop.
     while let Some((expr_state, expr)) = env.current_frame_mut().exprs_to_eval.pop() {
         match &expr.expr_ {
-            Expression_::While(_, _) => {
+            Expression_::While(_, _) if is_running_loop(expr_state, &expr) => {
                 // If we're leaving the loop body, pop its bindings
                 // block, as the `DoneRunBlock` step would have done.
                 if matches!(
@@ -7352,7 +7366,7 @@ fn eval_break(env: &mut Env, expr_value_is_used: bool) {
 
                 break;
             }
-            Expression_::ForIn(_, _, _) => {
+            Expression_::ForIn(_, _, _) if is_running_loop(expr_state, &expr) => {
                 // We're exiting the loop early, we need to follow the
                 // pattern of `eval_for_in` and maintain stack
                 // discipline for values pushed for the loop body.
@@ -7406,10 +7420,7 @@ fn eval_continue(env: &mut Env) {
     // Pop all the currently evaluating expressions until we are back
     // at the loop.
     while let Some((expr_state, expr)) = env.current_frame_mut().exprs_to_eval.pop() {
-        if matches!(
-            expr.expr_,
-            Expression_::While(_, _) | Expression_::ForIn(_, _, _)
-        ) {
+        if is_running_loop(expr_state, &expr) {
             // TODO: this needs to clean up any items pushed to the value stack.
             // E.g. in `1 + continue`.
 
